@@ -1,15 +1,12 @@
-def _has_go_or_intr(case, record, expected_text):
-    return False
-
-
 CFG = {
     "id": "C10",
     "harness": "c10",
     "prop_file": "Properties/C10.v",
     "run_modules": ["Verif.C10.Run"],
     "coq_dirs": ["C10"],
-    "n": {"quick": 2400, "thorough": 150000},
-    "shard": 150,
+    "n": {"quick": 2000, "thorough": 150000},
+    "shard": 250,
+    "max_report": 3,
     "level": "proof",
     "rule": ("promise-operation programs of <= 12 ops after 1..4 leading NewPromise, <= 8 named promises, 0..3 thenable objects "
              "(callable then scripts calling resolve/reject 0..3 times and/or throwing; throwing then-getter; non-callable then), "
@@ -33,7 +30,10 @@ CFG = {
         "the drain loops take fuel (one unit per executed job); a run that exhausts it is marked `exhausted` and its remaining "
         "jobs are accounted as dropped, so every theorem holds unconditionally; the correspondence check requires exhausted = false",
         "handlers cannot create promises or reactions themselves (they log, call resolving functions, return/throw/interrupt)",
-        "species/subclass constructors, finally, async functions are not modelled",
+        "each_reaction_once is proved at the level of jobs (unique ids, executed at most once, executed + discarded = enqueued); "
+        "that a stored reaction record becomes a job at most once is structural (fulfill/reject clear both reaction lists when "
+        "they trigger them, and settle_once shows they run once per promise) and is not a separate theorem",
+        "species/subclass constructors, finally, async functions (await) are not modelled",
         "the implementation is tied to the model only on the generated programs (correspondence), not by proof",
     ],
     "predicates": {},
